@@ -382,8 +382,8 @@ fn sock_campaigns(id: &str) -> Vec<(SockCampaign, u32, u32)> {
 
 fn run_sockets(id: &'static str, tier: Tier, seed: u64, ctx: &Ctx, sh: u32) -> Evidence {
     let (rule,) = match id {
-        "C13" => ("generated metric strings (empty, 1 byte, multi-byte UTF-8, containing newlines, sizes clustered at the buffer capacity, 512/1432/8192 and the datagram limit: 65507 for UDP / 100 kB for Unix, one above for the error path) x blocking/non-blocking x unbuffered/buffered(capacities, default constructor) x three ToSocketAddrs forms (the slice form lists a decoy second) on real 127.0.0.1 UDP and Unix datagram sockets; unbuffered: exactly one datagram per Ok emit with payload == metric bytes, returned count == length, nothing on Err, nothing at the decoy; buffered: trace oracle with terminator '\\n', remainder on flush and drop. Non-trivial: non-ASCII or >512-byte payload, or a buffered run with >=2 datagrams; distinct by case hash.",),
-        _ => ("socket histories with real failures (oversize datagrams EMSGSIZE; Unix: receiver queue full EAGAIN, receiver closed ECONNREFUSED, re-bound) for the four socket sinks, 30% wrapped in a QueuingMetricSink; after every operation stats() must equal ground truth: sent = count/size of datagrams actually received, dropped = count/size of refused attempts derived from Err results (unbuffered: the metric; buffered: everything pending, or the oversized metric). Concurrent mode: 2..8 threads on one unbuffered sink, totals exact after join. Non-trivial: >=1 sent and >=1 dropped datagram in one history; distinct by case hash.",),
+        "C13" => ("generated metric strings (empty, 1 byte, multi-byte UTF-8, containing newlines, sizes clustered at the buffer capacity, 512/1432/8192 and the datagram limit: 65507 for UDP / 100 kB for Unix, one above for the error path) x blocking/non-blocking x unbuffered/buffered(capacities, default constructor) x three ToSocketAddrs forms (the slice form lists a decoy second) on real 127.0.0.1 UDP and Unix datagram sockets; unbuffered: exactly one datagram per Ok emit with payload == metric bytes, returned count == length, nothing on Err, nothing at the decoy; buffered: trace oracle with terminator '\\n', remainder on flush and drop. Receiver restart (udp-receiver-restart): the UDP receiver is closed and re-bound on the same port between generated phases of emits/flushes; an identical sink whose receiver never goes away makes the same calls (metamorphic: an unconnected socket cannot observe its peer): same result per call, same datagrams per call whenever the receiver is bound, nothing at the decoy (non-trivial there: a datagram left while the receiver was gone and one arrived after the restart). Non-trivial: non-ASCII or >512-byte payload, or a buffered run with >=2 datagrams; distinct by case hash.",),
+        _ => ("socket histories with real failures (oversize datagrams EMSGSIZE; Unix: receiver queue full EAGAIN, receiver closed ECONNREFUSED, re-bound) for the four socket sinks, 30% wrapped in a QueuingMetricSink; after every operation stats() must equal ground truth: sent = count/size of datagrams actually received, dropped = count/size of refused attempts derived from Err results (unbuffered: the metric; buffered: everything pending, or the oversized metric). Concurrent mode: 2..8 threads on one unbuffered sink, totals exact after join. Receiver restart (udp-receiver-restart-stats): UDP receiver closed and re-bound between phases, stats() after every call equal to those of an identical sink making the same calls against a receiver that never goes away, and for unbuffered sinks to the Ok/Err results. Non-trivial: >=1 sent and >=1 dropped datagram in one history; distinct by case hash.",),
     };
     let mut ev = Evidence::new(id, "exploration", tier, seed, rule);
     ev.assume("loopback UDP delivers a datagram before sendto returns or within the 2 s grace poll; Unix datagram sockets are reliable and synchronous");
@@ -411,6 +411,13 @@ fn run_sockets(id: &'static str, tier: Tier, seed: u64, ctx: &Ctx, sh: u32) -> E
     }
     for (c, q, t) in sock_campaigns(id) {
         if !driver::run_random(&c, &ev, ctx, scale(tier.pick(q, t)), sh) {
+            return ev;
+        }
+    }
+    if ev.violations().is_empty() {
+        // the receiver goes away and comes back on the same port (unconnected socket: invisible to the sink)
+        let c = sockets::UdpRestart { name: if id == "C14" { "udp-receiver-restart-stats" } else { "udp-receiver-restart" }, telemetry: id == "C14" };
+        if !driver::run_random(&c, &ev, ctx, scale(tier.pick(400, 12_000)), sh) {
             return ev;
         }
     }
@@ -765,6 +772,8 @@ pub fn replay(id: &'static str, campaign: &str, case: &serde_json::Value, tier: 
     try_camp!(crate::queue::concurrent::LastSlotRace);
     try_camp!(crate::queue::concurrent::DropRace);
     try_camp!(sockets::ConnectedUdpGreedy);
+    try_camp!(sockets::UdpRestart { name: "udp-receiver-restart", telemetry: false });
+    try_camp!(sockets::UdpRestart { name: "udp-receiver-restart-stats", telemetry: true });
     try_camp!(crate::queue::concurrent::HandlerChain);
     try_camp!(crate::queue::concurrent::FirstEmitRace { name: "queue-first-emit-race", focus: QRule::Deliver });
     try_camp!(crate::queue::concurrent::FirstEmitRace { name: "queue-first-emit-race-shutdown", focus: QRule::Shutdown });
